@@ -128,14 +128,16 @@ class Labware:
             raise ValueError(f"Invalid rows: {rows}")
         if not isinstance(columns, int) or columns < 1:
             raise ValueError(f"Invalid columns: {columns}")
-        if min_volume is None or min_volume < 0:
+        if min_volume is None or not min_volume >= 0:
             raise ValueError(f"Invalid min_volume: {min_volume}")
-        if max_volume is None or max_volume <= min_volume:
+        if max_volume is None or not max_volume > min_volume:
             raise ValueError(f"Invalid max_volume: {max_volume}")
         if virtual_rows is not None and rows != 1:
             raise ValueError("When using virtual_rows, the number of rows must be == 1")
-        if virtual_rows is not None and virtual_rows < 1:
+        if virtual_rows is not None and (not isinstance(virtual_rows, int) or virtual_rows < 1):
             raise ValueError(f"Invalid virtual_rows: {virtual_rows}")
+        if max(rows, virtual_rows or 0) > 26:
+            raise ValueError("Row IDs are letters; more than 26 (virtual) rows are not supported.")
         if virtual_rows and not isinstance(self, Trough):
             warnings.warn(
                 "Troughs should be created with the robotools.Trough class.",
@@ -155,6 +157,8 @@ class Labware:
             rows,
             columns,
         ), f"Invalid shape of initial_volumes: {initial_volumes.shape}"
+        if np.any(np.isnan(initial_volumes)):
+            raise ValueError("initial_volume cannot be NaN")
         if np.any(initial_volumes < 0):
             raise ValueError("initial_volume cannot be negative")
         if np.any(initial_volumes > max_volume):
